@@ -293,9 +293,50 @@ def corr_eui(ctx, out):
 
 NAME_POOL = ['localhost', 'server01', 'a', 'A.B', 'my-host.example.org', 'x_y', 'h', 'xn--bcher-kva.example',
              'host.', '0', '1e3', 'a]b', 'a%b', 'a b', 'é.example', 'www.EXAMPLE.com', 'a[b', 'ffff', 'dead.beef',
-             '1.2.3', '1.2.3.4.5', '256.1.1.1', '01.2.3.4']
+             '1.2.3', '1.2.3.4.5', '256.1.1.1', '01.2.3.4', 'a%25b', '%25', 'h%2580', 'a%3Ab', 'a+b', '%5Bx%5D', 'a%']
 SCOPES = ['eth0', '1', 'en0', 'wlan-0_1', 'a.b', 'abcdefghijklmno', 'a:b', 'a[b', 'x y', 'Ethernet_2', 'é', '0',
           'br-ex', 'vlan.100', '~!@#$^&*()=+', '{}|\\;\'",<>/?`']
+
+
+# zone ids: the host class allows any 1..15 characters except ']' and '%' (the split is at the last '%').
+# Deterministic part: every numeric interface index 0..300 and ids that look like the payload of a
+# percent-escape or another encoding (a parser that "decodes" the host must not change them).
+ESCAPE_LIKE = ['25', '2', '5', '20', '3A', '3a', '5B', '5D', '5d', '2F', '00', '7e', '7E', 'u0025', 'x25', '0x25', '&#37;',
+               '+', '\\', '\\x25', '&amp;', '=25']
+SCOPE_FIXED = [str(i) for i in range(0, 301)] + ESCAPE_LIKE + [
+    '2500', '25eth0', '252525', '2525', '25g0', '25.1', '025', '125', 'eth25', 'ens25', 'wlan25', '25:1', '25[', ' 25',
+    '5D5B', '3A80', '20eth0', 'a+b', 'a b', 'lo', 'LO', 'Eth0', '25' * 7 + '2', 'a' * 15, '9' * 15]
+SCOPE_ALPHA = ('abcdefghijklmnopqrstuvwxyzABCDEFGHIJKLMNOPQRSTUVWXYZ0123456789' * 2 +
+               '._-~!@#$^&*()=+{}|\\;\'",<>/?`:[ ')
+SCOPE_BASES = ['fe80::1', 'fe80::216:3eff:fe33:4455', '::1', 'FE80::A', 'fe80:0:0:0:0:0:0:1', 'ff02::1:ff00:1',
+               '::ffff:1.2.3.4', '2001:db8::']
+# not in the host class (is_valid_ipv6 is false or the scope is out of range): for the escape / malformed streams
+SCOPED_INVALID = ['fe80::1%%25', 'fe80::1%a%25b', 'fe80::1%25%', '%25', 'fe80::1%25%25', 'fe80::1%', 'fe80::1%%',
+                  'fe80::1%' + '2' * 16, 'fe80::g%25', '%25eth0', 'fe80::1%2%5']
+
+
+def gen_scope(rng):
+    r = rng.random()
+    if r < 0.2:
+        return rng.choice(SCOPES)
+    if r < 0.4:
+        return str(rng.randrange(0, 301))
+    if r < 0.5:
+        return rng.choice(SCOPE_FIXED)
+    n = rng.randrange(1, 16)
+    if r < 0.7:
+        # starts like an escape payload, then anything
+        pre = rng.choice(ESCAPE_LIKE)[:n]
+        return pre + ''.join(rng.choice(SCOPE_ALPHA) for _ in range(n - len(pre)))
+    return ''.join(rng.choice(SCOPE_ALPHA) for _ in range(n))
+
+
+def fixed_scoped_hosts():
+    """every fixed zone id on a rotating base address: (host, in the property's host class)"""
+    for i, sc in enumerate(SCOPE_FIXED + SCOPES):
+        yield SCOPE_BASES[i % len(SCOPE_BASES)] + '%' + sc
+        if sc in ESCAPE_LIKE or sc.startswith('2'):
+            yield SCOPE_BASES[(i + 3) % len(SCOPE_BASES)] + '%' + sc
 
 
 def gen_name(rng):
@@ -332,7 +373,7 @@ def gen_v6(rng, scoped=None):
     if scoped is None:
         scoped = rng.random() < 0.4
     if scoped:
-        t += '%' + rng.choice(SCOPES)
+        t += '%' + gen_scope(rng)
     return t
 
 
@@ -412,6 +453,14 @@ def hostport_cases(ctx):
         for p in range(65536):
             for fam in ('name', 'v4', 'v6'):
                 yield n.escape_ipv6(pool[fam][p % 64]) + ':' + str(p), None, fam + '/allports'
+    for i, h in enumerate(fixed_scoped_hosts()):
+        e = n.escape_ipv6(h)
+        yield e + ':' + str(PORT_EDGE[i % len(PORT_EDGE)]), DEFAULTS[i % 6], 'v6/scope-fixed/port'
+        yield e, DEFAULTS[(i + 1) % 6], 'v6/scope-fixed/default'
+        yield h, DEFAULTS[(i + 2) % 6], 'v6/scope-fixed/raw'
+    for h in SCOPED_INVALID + ['a%25b', 'fe80::1%25eth0', 'fe80::1%2525', 'x%5D']:
+        for a in ['[' + h + ']:80', '[' + h + ']', h + ':80', h]:
+            yield a, rng.choice(DEFAULTS[:6]), 'odd/percent'
     for pt in PORT_TEXTS:
         for a in ['h:' + pt, '[::1]:' + pt, '[fe80::1%eth0]x:' + pt + ':9']:
             yield a, rng.choice(DEFAULTS), 'odd/porttext'
@@ -441,6 +490,10 @@ def esc_cases(ctx):
                           'fe80::1%]', 'fe80::1%a]b', 'fe80::1%[', '1:2::3:4::5', ':1::', '::1:', '1::2:', 'a:b', '1:2:3:4:5:6:7',
                           '0:0:0:0:0:0:0:0', 'FFFF:ffff::', '::255.255.255.255', '::256.0.0.0', '::1.2.3.04', '1::1.2.3.4',
                           '1:2:3:4:5::1.2.3.4', '1:2:3:4:5:6::1.2.3.4', '1:2:3:4:5:6:7::1.2.3.4', '::1.2.3.4::']:
+        yield h, 'fixed'
+    for h in fixed_scoped_hosts():
+        yield h, 'v6/scope-fixed'
+    for h in SCOPED_INVALID:
         yield h, 'fixed'
     for _ in range(4000 if ctx.quick else 60000):
         fam, h = gen_host(rng)
@@ -869,7 +922,7 @@ def search(ctx, seeds, full=False):
         if fam == 'name' and (':' in h or h.startswith('[')):
             continue
         if fam == 'v6':
-            sc = h.partition('%')[2]
+            sc = h.rpartition('%')[2]
             if ']' in sc:
                 continue        # outside the stated host class (see LEVEL_NOTE)
         ctx.count('search/hostport/' + fam)
@@ -882,6 +935,13 @@ def search(ctx, seeds, full=False):
             check({'kind': 'hostport', 'host': h, 'port': p, 'default': rng.choice([None, 1, 65535])})
         else:
             check({'kind': 'hostport', 'host': h, 'port': None, 'default': rng.choice([None, 0, 80, 65535, 1234])})
+    for i, h in enumerate(fixed_scoped_hosts()):
+        if ']' in h.rpartition('%')[2]:
+            continue
+        ctx.count('search/hostport/v6-scope-fixed')
+        check({'kind': 'hostport', 'host': h, 'port': PORT_EDGE[i % len(PORT_EDGE)], 'default': None})
+        check({'kind': 'hostport', 'host': h, 'port': None, 'default': [None, 0, 1234, 65535][i % 4]})
+        check({'kind': 'hostport-raw', 'host': h, 'default': [None, 0, 1234, 65535][(i + 1) % 4]})
     if not ctx.quick:
         pool = [gen_name(rng) for _ in range(8)] + [gen_v4(rng) for _ in range(8)] + [gen_v6(rng) for _ in range(8)]
         pool = [h for h in pool if not (h.startswith('[') or (':' in h and not n.is_valid_ipv6(h)) or ']' in h)]
